@@ -424,3 +424,5 @@ PROPS["C19"]["rule"] = _r[:_i] + ("driver race (binary built with -race): n appl
 PROPS["C19"]["trusted_extra"] = [t.replace("state.FlagDebugger (struct with a map; written by (*flagDebugger).Register <- asm.(*FlagParser).Load in debug mode and by applications; read by State.String in debug mode and engine.SimpleDebug.Break)",
     "state.FlagDebugger (struct with a map): written ONLY by (*flagDebugger).Register (= application set-up: asm.(*FlagParser).Load in debug mode, applications, the harness in one debug run before its goroutines start) and by newFlagDebugger at package initialisation; AsList/AsString only read it - from State.String when the state is in debug mode (an eagerly evaluated log argument of engine.exec, db.go:541/545) and from engine.SimpleDebug.Break; exercised concurrently by the race driver's debug runs") for t in PROPS["C19"]["trusted_extra"]]
 PROPS["C19"]["assumptions"] = PROPS["C19"]["assumptions"] + ["sessions that share a filesystem state directory have distinct session ids (distinct records); the directory is written by this process only"]
+PROPS["C18"]["prop_files"] = PROPS["C18"]["prop_files"] + ["props/C18kept.v"]
+PROPS["C18"]["files"] = list(dict.fromkeys(PROPS["C18"]["files"] + ["proofs/KeptProofs.v", "props/C18kept.v"]))
